@@ -33,7 +33,7 @@ func (e *Engine) freshErr(st *State, what string) Val {
 
 func (e *Engine) sliceElem(st *State, s Val, elem types.Type, idx string) string {
 	hn, hs := e.sliceHeapName(elem)
-	return sel(sel(e.heapIn(st, hn, hs), "(s_ref "+s.T+")"), "(+ (s_off "+s.T+") "+idx+")")
+	return sel(sel(e.heapIn(st, hn, hs), "(s_ref "+s.T+")"), "(ix (s_off "+s.T+") "+idx+")")
 }
 
 // varargsConst returns the elements of a variadic argument built from a constant-size array, if visible.
@@ -209,6 +209,8 @@ func init() {
 	H["strings.Split"] = func(e *Engine, fc *fnCtx, st *State, c *ssa.CallCommon, a []Val, r types.Type) (Val, bool) {
 		v := e.newStringSlice(st, "split")
 		s, sep := a[0].T, a[1].T
+		e.sc.declareFun("splitsrc", []string{"Int", "String"}, "String")
+		e.assume(st, "(= (splitsrc (s_ref "+v.T+") "+sep+") "+s+")")
 		elem := func(j string) string { return e.sliceElem(st, v, tString, j) }
 		e.assume(st, and(
 			implies("(not (= "+sep+" \"\"))", and("(>= (s_len "+v.T+") 1)",
@@ -377,6 +379,10 @@ func init() {
 		e.sc.declareFun("reMatch", []string{"Int", "String"}, "Bool")
 		return boolRes("(reMatch " + a[0].T + " " + a[1].T + ")")
 	}
+	pureSpecMethods["(*regexp.Regexp).MatchString"] = func(e *Engine, env *SpecEnv, a []Val) Val {
+		e.sc.declareFun("reMatch", []string{"Int", "String"}, "Bool")
+		return boolVal("(reMatch " + a[0].T + " " + a[1].T + ")")
+	}
 	submatch := func(e *Engine, fc *fnCtx, st *State, c *ssa.CallCommon, a []Val, r types.Type) (Val, bool) {
 		v := e.newStringSlice(st, "submatch")
 		elem := func(j string) string { return e.sliceElem(st, v, tString, j) }
@@ -442,7 +448,29 @@ func init() {
 		e.setHeapIn(st, "BIGVAL", "(Array Int Int)", store(h, ref, a[0].T))
 		return Val{T: ref, S: "Int", GoT: r}, true
 	}
-	pureSpecFuncs["bigOf"] = nil
+	// io/fs.FileMode methods
+	modeFns := map[string]func(m string) (string, string){
+		"IsDir":     func(m string) (string, string) { return "(not (= (bitand " + m + " 2147483648) 0))", "Bool" },
+		"IsRegular": func(m string) (string, string) { return "(= (bitand " + m + " 2401763328) 0)", "Bool" },
+		"Type":      func(m string) (string, string) { return "(bitand " + m + " 2401763328)", "Int" },
+		"Perm":      func(m string) (string, string) { return "(bitand " + m + " 511)", "Int" },
+	}
+	for name, f := range modeFns {
+		f := f
+		full := "(io/fs.FileMode)." + name
+		H[full] = func(e *Engine, fc *fnCtx, st *State, c *ssa.CallCommon, a []Val, r types.Type) (Val, bool) {
+			t, srt := f(a[0].T)
+			return Val{T: e.sc.define("mode", srt, t), S: srt, GoT: r}, true
+		}
+		pureSpecMethods[full] = func(e *Engine, env *SpecEnv, a []Val) Val {
+			t, srt := f(a[0].T)
+			v := Val{T: t, S: srt, GoT: tBool}
+			if srt == "Int" {
+				v.GoT = a[0].GoT
+			}
+			return v
+		}
+	}
 	// slices
 	H["slices.Contains"] = func(e *Engine, fc *fnCtx, st *State, c *ssa.CallCommon, a []Val, r types.Type) (Val, bool) {
 		sl, ok := c.Args[0].Type().Underlying().(*types.Slice)
